@@ -154,12 +154,37 @@ Fixpoint count_y (tr : list event) : nat :=
    (every earlier call was stopped by its consumer after fuel outputs), must be the call of
    the SAME expression from the instant n on; a refusal is accepted only where the frozen
    filter is refused; the object keeps its shape *)
-Definition step_expr (e : fexp) (st : sstep) : fexp :=
-  match st with
-  | SShiftCall k _ => FMul e (FBase [(Z.of_nat k, CNum 1%Qc)] [(0%Z, CNum 1%Qc)])
-  | _ => e
+(* what the text demands of the filter a step runs, frozen at the instant j: the frozen
+   arithmetic (element by element) - a power is the repeated product, a negative power the
+   power of the reciprocal, filt op filt the operator on the same coefficient sequences *)
+Definition one_f : bres (@gfilt scoef) := mk_tfilt frozen_alg 0 [(0%Z, s_num 1%Qc)] [(0%Z, s_num 1%Qc)].
+Fixpoint spow (F : @gfilt scoef) (n : nat) : bres (@gfilt scoef) :=
+  match n with
+  | O => one_f
+  | S O => BOk F 0%nat
+  | S k => bbind (spow F k) (fun G _ => fmul frozen_alg 0 G F)
   end.
-Definition step_fuel (st : sstep) : nat := match st with SCall f => f | SShiftCall _ f => f | SLook => 0%nat end.
+Definition sself (F : @gfilt scoef) (o : selfop) : bres (@gfilt scoef) :=
+  match o with
+  | SelfMul => fmul frozen_alg 0 F F
+  | SelfAdd => mk_tfilt frozen_alg 0 (padd frozen_alg (t_num F) (t_num F)) (t_den F)
+  | SelfSub => bbind (fneg frozen_alg 0 F) (fun G _ => mk_tfilt frozen_alg 0 (padd frozen_alg (t_num F) (t_num G)) (t_den F))
+  | SelfDiv => let '(n, _) := pmul frozen_alg 0 (t_num F) (t_den F) in
+               let '(d, _) := pmul frozen_alg 0 (t_den F) (t_num F) in
+               mk_tfilt frozen_alg 0 n d
+  end.
+Definition step_fz (S : sources) (e : fexp) (st : sstep) (j : nat) : bres (@gfilt scoef) :=
+  match st with
+  | SShiftCall k _ => frozen_at S (FMul e (FBase [(Z.of_nat k, CNum 1%Qc)] [(0%Z, CNum 1%Qc)])) j
+  | SPowCall n _ =>
+      bbind (frozen_at S e j) (fun F _ =>
+        if (n <? 0)%Z then bbind (mk_tfilt frozen_alg 0 (t_den F) (t_num F)) (fun G _ => spow G (Z.to_nat (- n)))
+        else spow F (Z.to_nat n))
+  | SSelfCall o _ => bbind (frozen_at S e j) (fun F _ => sself F o)
+  | _ => frozen_at S e j
+  end.
+Definition step_fuel (st : sstep) : nat :=
+  match st with SCall f => f | SShiftCall _ f => f | SPowCall _ f => f | SSelfCall _ f => f | SLook => 0%nat end.
 
 Fixpoint holds_steps (S : sources) (e : fexp) (zero : Qc) (silent : list nat) (steps : list sstep) (obs : list stepobs)
                      (n : option nat) : bool :=
@@ -174,13 +199,13 @@ Fixpoint holds_steps (S : sources) (e : fexp) (zero : Qc) (silent : list nat) (s
       match n with
       | None => true                               (* the sources are no longer in step: no claim *)
       | Some n0 =>
-          let e' := step_expr e st in
+          let fz := step_fz S e st in
           match o with
           | SORun _ tr =>
-              spec_run_at S e' MNone zero silent (step_fuel st) n0 tr &&
+              spec_run_fz S fz MNone zero silent (step_fuel st) n0 tr &&
               holds_steps S e zero silent sr orr (if Nat.eqb (count_y tr) (step_fuel st) then Some (n0 + step_fuel st)%nat else None)
           | SOErr _ =>
-              match frozen_at S e' n0 with
+              match fz n0 with
               | BErr _ => true
               | BOk F _ => noncausal F || zero_gain F
               end && holds_steps S e zero silent sr orr n
